@@ -7,7 +7,7 @@ from kfv.rules import coh_rules as C
 from kfv.rules import spmd_rules as S
 
 TECHNIQUE = ('rank-label dataflow over KAISAAssignment (uniformity of the inverse-worker table and of group creation), hash-order lint on '
-             'mypy set element types, structural grid rules (column/row records, partition normal forms), float-integrality lint, role types of the greedy loops; provenance of the rank / world size the assignment is built for')
+             'mypy set element types, structural grid rules (column/row records, partition normal forms), float-integrality lint (tolerant test, rounding conversion, constant evaluation of the isclose tolerances against the rounding-error bound of the product), role types of the greedy loops; provenance of the rank / world size the assignment is built for')
 EXPLANATION = (
     'Identical derivation on every rank is decided by the rank-label analysis: the inverse-worker table, the gradient-worker '
     'records, the broadcast flags and every argument/guard of process-group creation carry the empty label, and no order is '
